@@ -29,6 +29,8 @@ VERIF_KINDS = [
     'may fail to meet its declared type invariant', 'recursive call', 'cannot prove',
     'possible truncation', 'call to nonterminating', 'value may be out of range',
     'unable to prove', 'post-condition of closure', 'pre-condition of closure',
+    # assert .. by(compute / compute_only): the interpreter evaluated the asserted expression to false / to a residue that is not true
+    'expression simplifies to false', 'failed to simplify down to true',
 ]
 SAFETY_KINDS = {
     'possible arithmetic underflow/overflow': 'overflow',
@@ -196,7 +198,7 @@ class Failure:
             if 'before loop' in low:
                 return 'inv-entry'
             return 'inv-preserved'
-        if 'assertion' in low:
+        if 'assertion' in low or 'simplif' in low:
             return 'assert'
         return 'other'
 
@@ -385,11 +387,14 @@ def write_replay(pid, idx, f, extra=None):
         o.write(f.rendered or f.msg)
         o.write('\n')
         if extra:
-            o.write('\n--- failing input (replayed on the extracted code) ---\n')
+            o.write('\n--- failing input ---\n')
             o.write(extra)
             o.write('\n')
         else:
-            o.write('\nno-failing-input-found: Verus gives no model; this unit has no executable replay oracle.\n')
+            note = getattr(f, 'replay_note', None)
+            if note:
+                o.write('\n--- failing-input search ---\n' + note + '\n')
+            o.write('\nno-failing-input-found: Verus gives no model; %s.\n' % ('the unit\'s own search did not end in an input that fails on the real code' if note else 'this unit has no executable replay oracle'))
     return path
 
 
